@@ -238,6 +238,27 @@ Incr == /\ Is("Incr")
            fails' = (IF Ev.val # exp THEN {F("C09", <<"incremental value", Ev.axis, Ev.step, Ev.val, exp>>, "incremental")} ELSE {})
         /\ l' = l + 1 /\ UNCHANGED <<run, scen, params, base, objs, call, hist, expect>>
 
+\* C16: capacity grid built from a circuit: regions = free row segments (rows minus fixed obstructions), clipped by the side
+\* margin floor(sideMargin x smallest positive cell height) on both sides, segments not wider than twice the margin dropped.
+GridRegions(c, margin) ==
+    UNION { { <<s[1] + margin, s[2] - margin, c.rows[r].y0, c.rows[r].y1>> : s \in { s \in SegmentsOfRow(c, r) : s[2] - s[1] > 2 * margin } }
+            : r \in 1..Len(c.rows) }
+RECURSIVE SumOverSet(_, _)
+SumOverSet(S, x) == IF S = {} THEN 0 ELSE LET q == CHOOSE q \in S : TRUE IN
+                      Max2(0, Min2(q[2], x[2]) - Max2(q[1], x[1])) * Max2(0, Min2(q[4], x[4]) - Max2(q[3], x[3])) + SumOverSet(S \ {q}, x)
+GridEv == /\ Is("Grid")
+          /\ LET c == Ev.circ
+                 margin == (Ev.m2 * Ev.minH) \div 2
+                 regs == GridRegions(c, margin)
+                 limX == Ev.limX limY == Ev.limY
+                 bad == { k \in 1..Len(Ev.bins) :
+                            Ev.bins[k].cap # SumOverSet(regs, <<limX[Ev.bins[k].i], limX[Ev.bins[k].i + 1], limY[Ev.bins[k].j], limY[Ev.bins[k].j + 1]>>) }
+                 tot == SumOverSet(regs, <<limX[1], limX[Len(limX)], limY[1], limY[Len(limY)]>>)
+                 all == SumOverSet(regs, <<-1000000, 1000000, -1000000, 1000000>>) IN
+             fails' = (IF regs # {} /\ bad # {} THEN {F("C16", <<"bin capacity differs from the free row area inside the bin", bad>>, "grid-capacity")} ELSE {}) \cup
+                      (IF regs # {} /\ (Ev.totalCap # tot \/ tot # all) THEN {F("C16", <<"grid does not account for all free area", Ev.totalCap, tot, all>>, "grid-total")} ELSE {})
+          /\ l' = l + 1 /\ UNCHANGED <<run, scen, params, base, objs, call, hist, expect>>
+
 \* C15: the free segments the code computed for one row, against Geometry.FreeSegments (endpoint-based)
 FreeEv == /\ Is("Free")
           /\ LET exp == FreeSegments(Ev.row, Ev.obs)
@@ -269,7 +290,7 @@ ParamCheck == /\ Is("ParamCheck")
               /\ fails' = ParamCheckFails(Ev)
               /\ l' = l + 1 /\ UNCHANGED <<run, scen, params, base, objs, call, hist, expect>>
 
-Next == SolveEv \/ Schedule \/ HarnessError \/ ExpectReject \/ ParamsCtor \/ ParamCheck \/ Rebase \/ FreeEv \/ Incr \/ Reset \/ Begin \/ Cb \/ CbThrow \/ EndReturn \/ EndThrow \/ BadFate \/ Setter
+Next == GridEv \/ SolveEv \/ Schedule \/ HarnessError \/ ExpectReject \/ ParamsCtor \/ ParamCheck \/ Rebase \/ FreeEv \/ Incr \/ Reset \/ Begin \/ Cb \/ CbThrow \/ EndReturn \/ EndThrow \/ BadFate \/ Setter
 Spec == Init /\ [][Next]_vars
 
 ---------------------------------------------------------------------------
